@@ -21,6 +21,7 @@ package quickfix
 //@ spec fint(m FieldMap, t Tag) mathint = intval(m.tagLookup[t][0].value)
 //@ spec msgok(msg *Message) bool = msg != nil && mapsok(msg) && fmvals(msg.Header.FieldMap) && fmvals(msg.Body.FieldMap) && fmvals(msg.Trailer.FieldMap)
 //@ spec isappmsg(msg *Message) bool = fhas(msg.Header.FieldMap, 35) && !isadmin(fval(msg.Header.FieldMap, 35))
+//@ spec isadminmsg(msg *Message) bool = fhas(msg.Header.FieldMap, 35) && isadmin(fval(msg.Header.FieldMap, 35))
 //@ spec isadmin(m []byte) bool = len(m) == 1 && (m[0] == 48 || m[0] == 65 || m[0] == 49 || m[0] == 50 || m[0] == 51 || m[0] == 52 || m[0] == 53)
 
 //@ func isAdminMessageType [C01,C06,C08]
@@ -510,6 +511,7 @@ package quickfix
 //@   ensures @number result == nil && !s.sentReset ==> s.store.#S == wrap64(old(s.store.#S) + 1) && s.store.#T == old(s.store.#T)
 //@   ensures @state s.State == old(s.State) && s.messageOut == old(s.messageOut) && sessfull(s)
 //@   ensures @target (s.store.#T == old(s.store.#T) && s.store.#R == old(s.store.#R)) || s.store.#R > old(s.store.#R)
+//@   ensures @replykept inReplyTo != nil ==> msgok(inReplyTo)
 
 //@ func (s *session) sendLogout [C06,C08]
 //@   requires @sess sessfull(s)
@@ -523,6 +525,7 @@ package quickfix
 //@   ensures @number err == nil && !s.sentReset ==> s.store.#S == wrap64(old(s.store.#S) + 1) && s.store.#T == old(s.store.#T)
 //@   ensures @state s.State == old(s.State) && s.messageOut == old(s.messageOut) && sessfull(s)
 //@   ensures @target (s.store.#T == old(s.store.#T) && s.store.#R == old(s.store.#R)) || s.store.#R > old(s.store.#R)
+//@   ensures @replykept inReplyTo != nil ==> msgok(inReplyTo)
 
 //@ func (s *session) initiateLogout [C06,C08]
 //@   requires @sess sessfull(s)
@@ -572,3 +575,100 @@ package quickfix
 //@   ensures @nodelivery session.application.#n == old(session.application.#n)
 //@   ensures @target (session.store.#T == old(session.store.#T) && session.store.#R == old(session.store.#R)) || session.store.#R > old(session.store.#R)
 //@   ensures @nodup (!fhas(msg.Header.FieldMap, 43)) ==> result is logoutState || result is latentState
+
+// common shape of a handler's result: at most one application message accepted, and then the expected number moved on
+// by exactly one; the expected number never moves backwards unless the store was reset
+//@ func (state inSession) handleTestRequest [C01,C06,C20]
+//@   requires @sess sessfull(session)
+//@   requires @bound session.store.#T < MaxInt64
+//@   requires @msg msgok(msg)
+//@   requires @admin isadminmsg(msg)
+//@   atcall sendInReplyTo @type fhas(arg1.Header.FieldMap, 35) && onebyte(fval(arg1.Header.FieldMap, 35), 48)
+//@   atcall sendInReplyTo @echo fhas(arg1.Body.FieldMap, 112) && fhas(msg.Body.FieldMap, 112) && string(fval(arg1.Body.FieldMap, 112)) == string(fval(msg.Body.FieldMap, 112))
+//@   ensures @next result != nil && stok(result)
+//@   ensures @sess sessfull(session) && session.State == old(session.State)
+//@   ensures @nodelivery session.application.#n == old(session.application.#n)
+//@   ensures @mono (session.store.#T >= old(session.store.#T) && session.store.#R == old(session.store.#R)) || session.store.#R > old(session.store.#R)
+
+//@ func (state inSession) handleSequenceReset [C01,C06,C07]
+//@   requires @sess sessfull(session)
+//@   requires @bound session.store.#T < MaxInt64
+//@   requires @msg msgok(msg)
+//@   requires @admin isadminmsg(msg)
+//@   atcall SetNextTargetMsgSeqNum @forward arg1 > session.store.#T
+//@   ensures @next result != nil && stok(result)
+//@   ensures @sess sessfull(session) && session.State == old(session.State)
+//@   ensures @nodelivery session.application.#n == old(session.application.#n)
+//@   ensures @mono (session.store.#T >= old(session.store.#T) && session.store.#R == old(session.store.#R)) || session.store.#R > old(session.store.#R)
+
+//@ func (state inSession) handleLogout [C01,C06,C07]
+//@   requires @sess sessfull(session)
+//@   requires @bound session.store.#T < MaxInt64
+//@   requires @msg msgok(msg)
+//@   requires @admin isadminmsg(msg)
+//@   ensures @next result != nil && stok(result)
+//@   ensures @sess sessfull(session) && session.State == old(session.State)
+//@   ensures @nodelivery session.application.#n == old(session.application.#n)
+//@   ensures @mono (session.store.#T >= old(session.store.#T) && session.store.#R == old(session.store.#R)) || session.store.#R > old(session.store.#R)
+
+// ---- replay (C03): coarse contracts: what the handlers above them rely on -----------------------------------------
+//@ func (s *session) resend [C03]
+//@   requires s != nil && s.application != nil && msgsafe(msg)
+//@   ensures msgsafe(msg)
+//@   ensures s.application.#n == old(s.application.#n)
+
+// resendMessages (the replay loop with its store callback, message re-parsing and gap fills) is outside what the
+// engine verifies: the handlers rely on this stated, unverified contract (listed as an assumption in the evidence)
+//@ func (state inSession) resendMessages [C03]
+//@   trusted
+//@   requires @sess sessfull(session)
+//@   ensures @sess sessfull(session) && session.State == old(session.State)
+//@   ensures @store session.store.#T == old(session.store.#T) && session.store.#R == old(session.store.#R)
+//@   ensures @nodelivery session.application.#n == old(session.application.#n)
+//@   modifies heap Gh.chan.sent, session.toSend, session.toSend[*], fresh E.sl.uint8, session.store.#S, heap E.quickfix.Tag, heap H.quickfix.TagValue.*, heap E.uint8, fresh H.quickfix.Message.*, fresh H.quickfix.FieldMap.*, fresh H.quickfix.tagSort.*, fresh MH.quickfix.Tag.quickfix.field, fresh H.bytes.Buffer.*
+
+//@ func (state inSession) handleResendRequest [C01,C03,C06]
+//@   requires @sess sessfull(session)
+//@   requires @bound session.store.#T < MaxInt64
+//@   requires @msg msgok(msg)
+//@   requires @admin isadminmsg(msg)
+//@   ensures @next result != nil && stok(result)
+//@   ensures @sess sessfull(session) && session.State == old(session.State)
+//@   ensures @nodelivery session.application.#n == old(session.application.#n)
+//@   ensures @mono (session.store.#T >= old(session.store.#T) && session.store.#R == old(session.store.#R)) || session.store.#R > old(session.store.#R)
+
+// ---- Logon (C07, C08) ---------------------------------------------------------------------------------------------
+//@ extern (d time.Duration) Seconds()
+//@   pure
+//@ func (s *session) sendLogonInReplyTo [C07,C08]
+//@   requires @sess sessfull(s)
+//@   requires @reply inReplyTo != nil ==> msgok(inReplyTo)
+//@   atcall SetField @maps logon != nil && mapsok(logon)
+//@   atcall SetField @hdr fmvals(logon.Header.FieldMap)
+//@   atcall SetField @body fmvals(logon.Body.FieldMap)
+//@   atcall SetField @trl fmvals(logon.Trailer.FieldMap)
+//@   atcall SetField @cmp logon.Header.compare != nil && logon.Body.compare != nil && logon.Trailer.compare != nil
+//@   atcall SetField @sess sessfull(s)
+//@   atcall SetField @rmaps inReplyTo != nil ==> mapsok(inReplyTo)
+//@   atcall SetField @rhdr inReplyTo != nil ==> fmvals(inReplyTo.Header.FieldMap)
+//@   atcall SetField @rbody inReplyTo != nil ==> fmvals(inReplyTo.Body.FieldMap)
+//@   atcall SetField @rtrl inReplyTo != nil ==> fmvals(inReplyTo.Trailer.FieldMap)
+//@   atcall SetField @sep inReplyTo != nil ==> msgsep(logon, inReplyTo)
+//@   atcall SetField @new fresh(logon) && fresh(logon.Header.tagLookup) && fresh(logon.Body.tagLookup) && fresh(logon.Trailer.tagLookup)
+//@   atcall SetField @type fhas(logon.Header.FieldMap, 35) ==> valid(logon.Header.tagLookup[35]) && valid(fval(logon.Header.FieldMap, 35)) && onebyte(fval(logon.Header.FieldMap, 35), 65)
+//@   ensures @sess sessfull(s) && s.State == old(s.State) && s.messageOut == old(s.messageOut)
+//@   ensures @replykept inReplyTo != nil ==> msgok(inReplyTo)
+//@   ensures @nodelivery s.application.#n == old(s.application.#n)
+//@   ensures @target (s.store.#T == old(s.store.#T) && s.store.#R == old(s.store.#R)) || s.store.#R > old(s.store.#R)
+//@   ensures @fromone !old(s.sentReset) && s.sentReset ==> result != nil || (s.store.#S == 2 && s.store.#T == 1)
+
+//@ func (s *session) shouldSendReset [C07]
+//@   requires s != nil && s.store != nil
+//@   ensures result ==> s.store.#T == 1 && s.store.#S == 1 && s.sessionID.BeginString >= "FIX.4.1" && (s.ResetOnLogon || s.ResetOnDisconnect || s.ResetOnLogout)
+//@   pure
+
+//@ func (s *session) sendLogon [C07,C08]
+//@   requires @sess sessfull(s)
+//@   ensures @sess sessfull(s) && s.State == old(s.State) && s.messageOut == old(s.messageOut)
+//@   ensures @nodelivery s.application.#n == old(s.application.#n)
+//@   ensures @target (s.store.#T == old(s.store.#T) && s.store.#R == old(s.store.#R)) || s.store.#R > old(s.store.#R)
